@@ -721,6 +721,47 @@ class BuiltinMixin:
             return [(st, VRange(terms[0], terms[1]))]
         raise Unsupported("range with step")
 
+    def _mapping_mixin_view(self, st, obj, what):
+        """items()/keys()/values() of a repo class deriving from collections.abc.Mapping: the view
+        lists what the class's own __iter__ yields (and __getitem__ of each key)"""
+        h = st.deref(obj)
+        it = load.find_method(h.cls[0], h.cls[1], "__iter__")
+        if it is None:
+            raise Unsupported("Mapping without __iter__")
+        f = VFunc(it[2], load.get_module(it[0]), None, f"{it[1]}.__iter__", (it[0], it[1]))
+        out = []
+        for s, r in self.call_function(st, f, [], {}, self_val=obj):
+            if isinstance(r, Raised):
+                out.append((s, r))
+                continue
+            keys = self.concrete_items(s, r)
+            if keys is None:
+                raise Unsupported("Mapping mixin view over a symbolic key iterator")
+            if what == "keys":
+                out.append((s, s.alloc(HList(items=list(keys)))))
+                continue
+            states = [(s, [])]
+            for k in keys:
+                nxt = []
+                for s2, acc in states:
+                    for s3, v in self.get_item(s2, obj, k):
+                        nxt.append((s3, v if isinstance(v, Raised) else acc + [VTuple((k, v)) if what == "items" else v]))
+                states = nxt
+            for s2, acc in states:
+                out.append((s2, acc if isinstance(acc, Raised) else s2.alloc(HList(items=acc))))
+        self.model_notes = getattr(self, "model_notes", set())
+        self.model_notes.add("collections.abc.Mapping mixin: items()/keys()/values() of a Mapping subclass list its __iter__ keys and __getitem__ values")
+        return out
+
+    def m_MappingMixin_items(self, st, obj, args, kwargs):
+        return self._mapping_mixin_view(st, obj, "items")
+
+    def m_MappingMixin_keys(self, st, obj, args, kwargs):
+        return self._mapping_mixin_view(st, obj, "keys")
+
+    def m_MappingMixin_values(self, st, obj, args, kwargs):
+        return self._mapping_mixin_view(st, obj, "values")
+
     def mapping_view_seq(self, st, it):
         """`x.items()` / `x.keys()` / `x.values()` of an opaque data object x: a sequence with
         len(x) entries, and bool(x) == (len(x) > 0) (collections.abc.Mapping; trusted data model)"""
